@@ -30,6 +30,7 @@ structure State where
   uniforms : List Rat := []
   tainted : Bool := false        -- a treatment broke i = sum(mort) earlier in this run (F20)
   soil : List Int := []          -- soil cohorts at the observed cell
+  treats : List (TreatSpec × TreatApp × List Rat) := []   -- Treatments container (after clear_after_step)
 deriving Inhabited
 
 def intList? (s : String) : Option (List Int) :=
@@ -210,6 +211,27 @@ def handle (st : State) (cmd : String) (inp obsToks : List String) : State × St
     match obs? obsToks with
     | some o => finish st o "ok"
     | none => (st, "BADLINE")
+  -- Treatments container: hp.treatlist clear_at kind:app:start:end,coef,coef.. ...
+  | "hp.treatlist", clearTok :: items =>
+    let parsed : Option (List (TreatSpec × TreatApp × List Rat)) := items.mapM fun it =>
+      match it.splitOn ":" with
+      | [kind, app, s0, rest] =>
+        match rest.splitOn "," with
+        | s1 :: coefs => do
+          let a ← (treatAppFromString app).toOption
+          let s0 ← parseNat? s0; let s1 ← parseNat? s1
+          let cs ← coefs.mapM parseRat?
+          some ({ pesticide := kind == "pesticide", start := s0, end_ := s1 }, a, cs)
+        | _ => none
+      | _ => none
+    match parseInt? clearTok, parsed with
+    | some cl, some l =>
+      -- clear_after_step removes the treatments whose start lies after the step
+      let kept := if cl < 0 then l else
+        let keptSpecs := clearAfterStep (l.map (·.1)) cl.toNat
+        l.filter fun t => keptSpecs.contains t.1 && decide (t.1.start ≤ cl.toNat)
+      ({ st with treats := kept }, "ok")
+    | _, _ => (st, "BADLINE")
   -- SoilPool at one cell: hp.soil.init => c0,c1,..
   | "hp.soil.init", [] =>
     match obsToks with
@@ -571,6 +593,44 @@ def handle (st : State) (cmd : String) (inp obsToks : List String) : State × St
             | some v => finish st o v
             | none => finish st o (cmpCells cmd (pre.map (Cell.stepForward st.mt st.latency step)) post)
         | none => (st, "BADLINE")
+      -- Treatments::manage(step): every treatment applied exactly at its start step, pesticides
+      -- ended exactly at their end step, nothing else
+      | "hp.manage", [stepTok] =>
+        match parseNat? stepTok with
+        | none => (st, "BADLINE")
+        | some step =>
+          if o.ret.any (·.startsWith "err:") then (st, s!"PROPFAIL C10 treatment_threw {o.ret}") else
+          let events := st.treats.map fun t => (t, t.1.eventAt step)
+          let anyEvent := events.any fun e => e.2 != .nothing
+          let cls : Nat → Ledger := fun _ => .removal
+          match invariants pre post cls true noSkip with
+          | some v => finish st o v
+          | none =>
+            if !anyEvent && post != pre then finish st o s!"PROPFAIL C10 changed_without_scheduled_treatment step={step}"
+            else if o.ret != [if anyEvent then "1" else "0"] then finish st o s!"PROPFAIL C10 manage_reports_change step={step} ret={o.ret}"
+            else
+              -- replay in list order; remember whether a ratio treatment met the F20 region
+              let (exp, f20) := events.foldl (fun (acc : List Cell × Bool) e =>
+                let ((spec, app, coefs), ev) := e
+                let cells := acc.1
+                match ev with
+                | .nothing => acc
+                | .apply =>
+                  let region := (List.range cells.length).any fun k =>
+                    isSuit st k && app == .ratio && (cells[k]!).mortOK &&
+                      !(roundingAgrees (if spec.pesticide then rfloor else rceil) coefs[k]! (cells[k]!))
+                  ((mapSuit { st with cells := cells } fun k cell =>
+                    let r := if spec.pesticide then cell.pesticideTreat coefs[k]! app else cell.simpleTreat coefs[k]! app
+                    match r with | .ok c' => c' | .error _ => cell), acc.2 || region)
+                | .finish => ((mapSuit { st with cells := cells } fun k cell => cell.pesticideEnd coefs[k]!), acc.2)) (pre, false)
+              match firstDiff exp post with
+              | some d => finish st o s!"MISMATCH hp.manage step={step} {d}"
+              | none =>
+                let broke := (List.range pre.length).findSome? fun k =>
+                  if (pre[k]!).mortOK && !(post[k]!).mortOK then some k else none
+                match broke with
+                | some k => finish st o (if f20 then s!"KNOWN C03 F20 cell={k} step={step} through Treatments::manage" else s!"PROPFAIL C03 mortality_cohorts cell={k} step={step}")
+                | none => finish st o "ok"
       -- generic per-action snapshot from the model hook: action step idx
       | "hp.after", [action, _step, _idx] =>
         if action == "treatments" then
